@@ -26,6 +26,8 @@ func C06(c *Ctx) {
 	r.Rule("R06.5", "expiry applies the list of the current height only: setTimeoutRollback and getTimeoutIBTPsMap iterate getTimeoutList(height) with their own height parameter; the timeout functions read no executor field other than ledger/config/logger (nothing in memory across restarts).")
 	r.Rule("R06.11", "one decision about the timeout: when the interchain contract overrides the timeout it hands to the transaction manager (beginTransaction zeroes it on the hub that does not own the timeout of a transaction between two BitXHubs, the record then carries Height = MaxUint64), the registration of the request in setTimeoutList lies behind the edge record.Height != MaxUint64 of the stored record; otherwise the executor lists what the contract decided not to time out, the receipt cannot find the id, and the finished transaction is rolled back at that height.")
 	r.Rule("R06.12", "the destination hub owns the timeout: the comparison in beginTransaction that takes the timeout away compares the current hub with the hub of ibtp.From (ParseFrom), never with the hub of ibtp.To - the destination hub is where the request executes and must be the one that lists it and rolls it back at the timeout height.")
+	r.Rule("R06.14", "a receipt is judged by the stored record, not by what its sender writes into it: setTimeoutList skips an IBTP because of its Group field (group members are listed by the transaction manager) only inside the request branch; whether a receipt belongs to a group is decided by the record lookup of the receipt branch (single record under TxInfoKey, else the global id). A receipt of a one-to-one request that carries a Group is accepted by the transaction manager - which ignores the field - and would otherwise leave its request listed: the finished transaction is reported as timed out and rolled back at H+T.")
+	r.Rule("R06.15", "the batch answer keeps only requests out of the timeout bookkeeping: filterValidTx files a transaction as invalid for the answer \"batch_ibtp\" (a request to an unordered destination is not listed for a timeout) only when the transaction is a request; a receipt's answer says nothing about how its request was treated - the two sides of checkIBTP take the flag from different services - and an accepted receipt always takes its request out of the list.")
 	r.Rule("R06.13", "T = 0 never times out: where the transaction manager computes a deadline GetCurrentHeight() + timeout and stores it as the Height of a record under which an id is listed (the group record handed to addToTimeoutList; the transaction record, when the executor lists requests under the recorded height), the function tests the timeout against 0 and on the edge on which it is 0 the recorded Height is MaxUint64 (never the sum: H + 0 = H would list the request for the block that accepted it, and it would be rolled back at once).")
 	r.NotDecided = append(r.NotDecided, "'exactly once in that block's notifications' over restarts beyond 'state is ledger-borne'; numeric adequacy of the overflow guard")
 
@@ -253,6 +255,124 @@ func C06(c *Ctx) {
 			}
 		} else {
 			c.behindEdges("R06.11", "setTimeoutList", stl, es, isAdd, "record.Height != MaxUint64", "timeout registration")
+		}
+	}
+	// R06.15: the batch answer keeps only requests out of the bookkeeping
+	if fv := c.fn("R06.15", execPrefix+"filterValidTx"); fv != nil {
+		isReqEdge := func(f core.Fact, ifi *ssa.If) (bool, int) {
+			if f.Kind != core.FCmp && f.Kind != core.FEqConst {
+				return false, 0
+			}
+			isCat := func(v ssa.Value) bool {
+				cl, ok := v.(*ssa.Call)
+				return ok && strings.HasSuffix(core.CalleeName(cl), "pb.IBTP).Category")
+			}
+			if (f.Subject != nil && isCat(core.Strip(f.Subject))) || (f.Other != nil && isCat(core.Strip(f.Other))) {
+				other := f.Other
+				if isCat(core.Strip(f.Other)) {
+					other = f.Subject
+				}
+				if enumName(other) == "IBTP_REQUEST" || f.Const == "0" && f.Kind == core.FEqConst {
+					return true, holdsEdge(f)
+				}
+			}
+			return false, 0
+		}
+		nB := 0
+		for _, b := range fv.Blocks {
+			ifi := core.IfOf(b)
+			if ifi == nil {
+				continue
+			}
+			f := core.CondFact(ifi.Cond)
+			if f.Kind != core.FEqConst || f.Const != "batch_ibtp" {
+				continue
+			}
+			nB++
+			// from the edge on which the answer is "batch_ibtp": a map update that files the transaction as invalid is
+			// reachable only across Category() == REQUEST
+			start := core.Point{B: b.Succs[holdsEdge(f)], Idx: 0}
+			cutEdges := condEdges(fv, isReqEdge)
+			// a receipt that is not successful is filed for that reason, whatever it answers
+			cutEdges.Merge(condEdges(fv, func(fc core.Fact, fi *ssa.If) (bool, int) {
+				if fc.Kind == core.FBool {
+					if cc, ok := fc.Subject.(*ssa.Call); ok && core.CalleeObj(cc) != nil && core.CalleeObj(cc).Name() == "IsSuccess" {
+						return true, 1 - holdsEdge(fc)
+					}
+				}
+				return false, 0
+			}))
+			// a decision carried in a boolean flag (a phi / local variable tested later) is not followed by this path
+			// rule: both edges of such a test are cut, so only decisions written as branches are judged
+			viaFlag := false
+			for _, fb := range fv.Blocks {
+				fi := core.IfOf(fb)
+				if fi == nil || fb == b {
+					continue
+				}
+				if core.Mentions(fi.Cond, func(v ssa.Value) bool {
+					ph, ok := v.(*ssa.Phi)
+					if !ok {
+						return false
+					}
+					bt, isB := ph.Type().Underlying().(*types.Basic)
+					return isB && bt.Kind() == types.Bool
+				}) {
+					cutEdges.Add(fb, 0)
+					cutEdges.Add(fb, 1)
+					viaFlag = true
+				}
+			}
+			bad := ""
+			for _, us := range c.mapUpdateSites(fv) {
+				// inside the per-receipt loop: only updates reached before the next iteration starts count
+				within := core.Reach([]core.Point{start}, func(in ssa.Instruction) bool { return in == ssa.Instruction(ifi) }, core.CutOf(cutEdges))
+				if within.Has(us.at) {
+					bad = c.P.Pos(us.at.Pos())
+				}
+			}
+			if bad == "" && viaFlag {
+				r.Note("R06.15", fmt.Sprintf("filterValidTx: decision carried in a flag #%d", nB), c.P.Pos(ifi.Cond.Pos()), "the filing decision passes through a boolean variable; only the branch structure was judged")
+			}
+			r.Check(bad == "", "R06.15", fmt.Sprintf("filterValidTx: the batch answer excludes requests only #%d", nB), c.P.Pos(ifi.Cond.Pos()), "the transaction is filed as invalid for its \"batch_ibtp\" answer only across Category() == REQUEST",
+				"a transaction is filed as invalid (update at "+bad+") because its receipt answers \"batch_ibtp\", whatever its category: the request side of checkIBTP takes that flag from the destination service, the receipt side from the source service, so for an unordered source and an ordered destination the request is listed for its timeout while its accepted receipt is skipped by setTimeoutList - the finished transaction is reported as timed out and rolled back at H+T")
+		}
+		r.Floor("R06.15", "tests of the batch answer in filterValidTx", nB, 1)
+	}
+	// R06.14: a receipt is never skipped because of a field its sender chooses
+	{
+		reqEdges := condEdges(stl, func(f core.Fact, ifi *ssa.If) (bool, int) {
+			if f.Kind != core.FCmp && f.Kind != core.FEqConst {
+				return false, 0
+			}
+			isCat := func(v ssa.Value) bool {
+				cl, ok := v.(*ssa.Call)
+				return ok && strings.HasSuffix(core.CalleeName(cl), "pb.IBTP).Category")
+			}
+			if (f.Subject != nil && isCat(core.Strip(f.Subject))) || (f.Other != nil && isCat(core.Strip(f.Other))) {
+				other := f.Other
+				if isCat(core.Strip(f.Other)) {
+					other = f.Subject
+				}
+				if enumName(other) == "IBTP_REQUEST" || f.Const == "0" && f.Kind == core.FEqConst {
+					return true, holdsEdge(f)
+				}
+			}
+			return false, 0
+		})
+		isGroupTest := func(in ssa.Instruction) bool {
+			bo, ok := in.(*ssa.BinOp)
+			if !ok || (bo.Op != token.EQL && bo.Op != token.NEQ) {
+				return false
+			}
+			f := core.CondFact(bo)
+			return f.Kind == core.FNil && core.Mentions(f.Subject, fieldLoad("IBTP", "Group"))
+		}
+		nG := len(sites(stl, isGroupTest))
+		if nG == 0 {
+			r.OK("R06.14", "setTimeoutList: no IBTP is skipped for its Group field", c.P.Pos(stl.Pos()), "setTimeoutList does not test ibtp.Group")
+		} else {
+			c.behindEdges("R06.14", "setTimeoutList", stl, reqEdges, isGroupTest, "Category() == REQUEST", "test of ibtp.Group (group members are registered by the transaction manager)")
 		}
 	}
 	guard("ibtp.Group == nil", func(f core.Fact, ifi *ssa.If) (bool, int) {
